@@ -6,7 +6,7 @@ import gen
 from props import util
 
 THEOREMS = ['C17_scenarios_share_the_present', 'C17_feasible_points_project', 'C17_at_most_mean_of_scenario_optima', 'C17_at_least_every_fixed_present',
-            'C17_identical_scenarios', 'C17_robust_worst_case_ge_every_point', 'C17_robust_le_smallest_scenario_optimum']
+            'C17_identical_scenarios', 'C17_extended_mapping_wf', 'C17_extended_mapping_matches_columns', 'C17_robust_worst_case_ge_every_point', 'C17_robust_le_smallest_scenario_optimum']
 CFG = {'p_coarse': 0.0, 'p_periodic': 0.0, 'T': (4, 8), 'n_assets': (1, 4), 'nodes': (1, 3), 'p_window': 0.3, 'p_market': 0.95, 'p_wacc': 0.6,
        'p_cap_key': 0.0, 'tzs': [None],
        'kinds': {'SimpleContract': 2, 'Contract': 2, 'Transport': 2, 'Storage': 4, 'MultiCommodityContract': 1, 'ExtendedTransport': 1, 'StructuredAsset': 3}}
@@ -30,6 +30,7 @@ def run(ctx):
     specs = ctx.specs(specs)
     res = C.run_impl('slp', specs)
     exprs, owners = [], []
+    mexprs, mowners = [], []
     for sp, o in zip(specs, res):
         ctx.count('status:' + str(o.get('status')))
         if o.get('status') != 'ok':
@@ -75,6 +76,10 @@ def run(ctx):
         if 'slp' in o and o.get('future') is not None and 'cost_samples' in o:
             exprs.append('(c17_case %s %s %s %s)' % (C.lp(o['base']), C.lst([C.b(b) for b in o['future']]), C.lst([C.qvec(c) for c in o['cost_samples']]), C.lp(o['slp'])))
             owners.append(sp)
+            if o.get('slp_mapping') is not None:
+                mexprs.append('(c17_map_case %s %s %s %s %s)' % (C.mapping(o['base']['mapping']), C.lst([C.b(b) for b in o['future']]), C.nat(len(o['cost_samples'])),
+                                                                C.nat(len(o['base']['c'])), C.mapping(o['slp_mapping'])))
+                mowners.append(sp)
         # ---------------- robust target
         rb = o.get('robust') or {}
         if rb.get('solve') == 'crash':
@@ -96,6 +101,12 @@ def run(ctx):
                 if bad:
                     ctx.violation('impl-violation', dict(payload, observed=bad, expected='C17 bounds of the robust problem'), trigger={'what': sorted(bad)[0]})
         ctx.sample({'spec': sp})
+    for sp, ok in zip(mowners, C.run_coq_exprs('C17m', 'Num LP Cert Mapping Dcf Grid Assets Periodic Portfolio Corr Build', mexprs, chunk=6)):
+        ctx.cov['correspondence']['cases'] += 1
+        ctx.cov['correspondence']['components_compared'] += 1
+        if not ok:
+            ctx.cov['correspondence']['disagreements'] += 1
+            ctx.broken('correspondence-broken', {'spec': sp, 'theorem_or_correspondence': 'make_slp mapping vs SLPProofs.slp_map'})
     vals = C.run_coq_exprs('C17', 'Num LP Cert Mapping Dcf Grid Assets Periodic Portfolio Corr Build', exprs, chunk=5)
     names = ['c (present: mean over the samples, futures / (nS+1))', 'l', 'u', 'rows (present shared, future block per scenario)']
     for sp, v in zip(owners, vals):
